@@ -930,9 +930,22 @@ func TestVerifConcStress(t *testing.T) {
 			}
 			return scopes[r.Intn(len(scopes))]
 		}
+		forget := func(sc *vkStressScope) { // stop picking a scope that was closed (it stays in `all`)
+			mu.Lock()
+			for i, x := range scopes {
+				if x == sc {
+					scopes = append(scopes[:i], scopes[i+1:]...)
+					break
+				}
+			}
+			mu.Unlock()
+		}
+		var all []*vkStressScope
 		add := func(s Scope, c context.CancelFunc) {
 			mu.Lock()
-			scopes = append(scopes, &vkStressScope{s, c})
+			x := &vkStressScope{s, c}
+			scopes = append(scopes, x)
+			all = append(all, x)
 			mu.Unlock()
 		}
 		type fkey struct {
@@ -1005,7 +1018,7 @@ func TestVerifConcStress(t *testing.T) {
 								report(round, "C09,C13", "provider.CreateScope returned an undocumented error: "+c)
 							}
 						})
-					case op < 14: // child scope
+					case op < 14: // child scope (op 11..13)
 						if sc == nil {
 							continue
 						}
@@ -1028,7 +1041,7 @@ func TestVerifConcStress(t *testing.T) {
 								report(round, "C09,C13", "scope.CreateScope returned an undocumented error: "+c)
 							}
 						})
-					case op < 17: // close
+					case op < 16: // close
 						if sc == nil {
 							continue
 						}
@@ -1038,12 +1051,18 @@ func TestVerifConcStress(t *testing.T) {
 							}
 							count("close")
 						})
-					case op < 19: // cancel
+						if r.Intn(4) != 0 {
+							forget(sc)
+						}
+					case op < 17: // cancel
 						if sc == nil {
 							continue
 						}
 						sc.cancel()
 						count("cancel")
+						if r.Intn(4) != 0 {
+							forget(sc)
+						}
 					default:
 						if midClose && i > OPS/2 && g%4 == 0 {
 							guard("provider.Close", func() {
@@ -1075,7 +1094,7 @@ func TestVerifConcStress(t *testing.T) {
 			defer close(fin)
 			guard("final closes", func() {
 				mu.Lock()
-				all := append([]*vkStressScope{}, scopes...)
+				all := append([]*vkStressScope{}, all...)
 				mu.Unlock()
 				var cw sync.WaitGroup
 				for _, sc := range all {
